@@ -285,6 +285,10 @@ func runC01(r *Run, p *Prog) {
 				}
 			}
 		}
+		for _, u := range sharedPackageState(p, hf) {
+			r.Ob("R5", shortName(u.Fn), "per-connection code uses package-level state "+u.G.Name(), u.At.Pos(), false,
+				"code that runs per connection uses a package-level variable that can carry objects between calls (free list, pool, cache, channel): what one connection encodes or decodes can show up on another")
+		}
 		// fresh decode target for the request
 		n := 0
 		for f := range H {
